@@ -74,6 +74,7 @@ structure St where
   good : List Nat := []            -- ghost: tokens of successful fetches, newest first
   run : RunPc := .idle
   cons : List ConsPc := []
+  runCtx : Bool := false           -- the context given to `Run` is done (cancelled / deadline passed)
   deriving DecidableEq, Repr
 
 inductive Lbl where
@@ -81,6 +82,8 @@ inductive Lbl where
   | runLoser                          -- a further `Run` call: its CAS fails, it returns "already running"
   | ctxDone (i : Nat)                 -- consumer i's ctx is done and its `select` takes that case
   | stop                              -- Run's ctx is done while the rotation loop waits
+  | cancelRun                         -- Run's ctx ends (environment; at ANY moment: before Run is called,
+                                      -- while the initial request is in flight, after the issuer returned, …)
   | renew                             -- the rotation timer fired at/after the renewal time: request issued
   | reply (ok : Bool)                 -- the issuer answers the outstanding request
   | run                               -- next statement of the Run goroutine
@@ -148,7 +151,8 @@ def step (v : Variant) (s : St) : Lbl → Option St
   | .callGet => some { s with cons := s.cons ++ [.gCall] }
   | .runLoser => if s.running then some s else none
   | .ctxDone i => if s.cons[i]? = some .yWait then some { s with cons := s.cons.set i (.yDone false) } else none
-  | .stop => if s.run = .rotWait then some { s with run := .stopped } else none
+  | .stop => if s.run = .rotWait then some { s with run := .stopped, runCtx := true } else none
+  | .cancelRun => some { s with runCtx := true }
   | .renew => if s.run = .rotWait then some { s with run := .rotFetch } else none
   | .reply ok => replyStep s ok
   | .run => runStep s
@@ -198,6 +202,7 @@ inductive Ev where
   | ret (i : Nat) (pc : ConsPc)
   | runRet (err : Bool)
   | stopRun
+  | cancelRun                 -- the harness ends the ctx it gave to Run
   | quiet (pending : List Nat)  -- after settling, exactly these consumer calls have not returned
   | nop                          -- an observation the model does not constrain
   deriving Repr
@@ -302,7 +307,12 @@ def evState (v : Variant) (c : Ctx) (s : St) : Ev → Option St
     else none
   | .rep ok => step v s (.reply ok)
   | .ret i pc => if s.cons[i]? == some pc then some s else none
-  | .runRet err => if (if err then s.run = .retErr else s.run = .stopped) then some s else none
+  | .runRet err =>
+    if err then (if s.run = .retErr then some s else none)
+    else if s.run = .stopped then some s
+    -- Run returned nil: the rotation loop's select took `ctx.Done()` — possible only once Run's ctx is done
+    else if s.runCtx then step v s .stop else none
+  | .cancelRun => step v s .cancelRun
   | .stopRun => match step v s .stop with | some t => some t | none => if s.run = .retErr then some s else none
   | .nop => some s
   | .quiet p =>
